@@ -4,3 +4,4 @@ CHECK_DEADLOCK FALSE
 CONSTANTS
   NREP = 16
   SwapMaxMs = 181000
+  NLAll = FALSE
